@@ -95,7 +95,7 @@ def signature(case, out):
                 return ("put/putfo(confirm=True) returns normally although a pipelined WRITE was rejected (%s; the size "
                         "check passes because a later chunk extends the file)" % how)
             return "put/putfo(confirm=False) returns normally although a pipelined WRITE was rejected (%s)" % how
-        return "pipelined SFTPFile (%s): close() returns normally although a WRITE was rejected (%s)" % (opts(case), how)
+        return "pipelined SFTPFile: close() returns normally although a WRITE was rejected (%s)" % how
     if f[0] == "read":
         if f[2] == 1 and out.get("dest_is_prefix"):
             return ("get/getfo (%s) returns a truncated copy: a READ inside the file answered with EOF status is taken as end "
